@@ -45,12 +45,18 @@ func (s logonState) FixMsgIn(session *session, msg *Message) (nextState sessionS
 			return shutdownWithReason(session, msg, false, err.Error())
 
 		case targetTooHigh:
-			var tooHighErr error
-			if nextState, tooHighErr = session.doTargetTooHigh(err); tooHighErr != nil {
+			resend, tooHighErr := session.doTargetTooHigh(err)
+			if tooHighErr != nil {
 				return shutdownWithReason(session, msg, false, tooHighErr.Error())
 			}
 
-			return
+			// The Logon itself is not kept and the expected number was not advanced for it, so its
+			// own number still has to arrive (as a gap fill): the recovery is complete only once
+			// the expected number has passed it. Leaving the resend state one number earlier would
+			// drop the messages kept in the meantime.
+			resend.resendRangeEnd = err.ReceivedTarget
+
+			return resend
 
 		default:
 			return handleStateError(session, err)
